@@ -104,11 +104,15 @@ def boxExc (e : Exc) (s : St) : Loc × St :=
   | .evalErr _ => s.allocV (.exc .evalError) true false
   | .cpp k => s.allocV (.exc k) true false
 
-/-- known-finding rule 1: `var x = <name>` where the named value still carries the return-value flag -/
-def tagParamAlias (e : Node) (s : St) (l : Loc) : St :=
-  match e with
-  | .id _ _ => if (s.cell l).ret then { s with tags := 1 :: s.tags } else s
-  | _ => s
+/-- is `l` the Data record of some variable (a local of any live scope, or a global)? -/
+def St.isNamed (s : St) (l : Loc) : Bool :=
+  s.stacks.any (fun st => st.any (fun sc => sc.any (fun p => p.2 == l))) || s.globals.any (fun p => p.2 == l)
+
+/-- known-finding rule 1 (a ghost marker: it changes nothing but `tags`): `var x = <expr>` where the value is a *variable's* record
+    that still carries the return-value flag — a parameter bound to a temporary — which `clone_if_necessary` will adopt instead of copy.
+    Decided on the state, not on the shape of the expression: `var x = a` and `var x = if (true) { a }` hand over the same record. -/
+def tagParamAlias (s : St) (l : Loc) : St :=
+  if (s.cell l).ret && s.isNamed l then { s with tags := 1 :: s.tags } else s
 
 def sortCaps (caps : List (Name × Loc)) : List (Name × Loc) :=
   caps.foldl (fun acc p =>
@@ -154,6 +158,17 @@ def sameSig (a b : FunDef) : Bool :=
 def insertOverload (ρ : List FunDef) (existing : List Nat) (fid : Nat) : List Nat :=
   if isGuarded ρ fid then existing.filter (isGuarded ρ) ++ [fid] ++ existing.filter (fun g => !isGuarded ρ g)
   else existing ++ [fid]
+
+/-- `Equation_AST_Node`: is the left child a `Reference` node (`var &x`)? -/
+def isRefDecl : Node → Bool
+  | .refDecl _ => true
+  | _ => false
+
+/-- `add_function` refuses a definition that equals (`operator==`) an existing overload of the name -/
+def defClash (ρ : List FunDef) (existing : List Nat) (fid : Nat) : Bool :=
+  match ρ[fid]? with
+  | some fd => existing.any (fun g => match ρ[g]? with | some gd => sameSig gd fd | none => false)
+  | none => true
 
 def run (ρ : List FunDef) : Nat → Job → St → R
   | 0, _, s => (.oof, s)
@@ -292,7 +307,7 @@ def run (ρ : List FunDef) : Nat → Job → St → R
         bnd (run ρ f (.node e) s0) (fun l s1 =>
           -- rule PARAM_TEMPORARY_ALIASED: the rhs is a *name* whose value still carries the return-value flag
           -- (a parameter bound to a temporary): it is adopted, not copied
-          let s1 := tagParamAlias e s1 l
+          let s1 := tagParamAlias s1 l
           bnd (cloneIfNecessary s1 l) (fun l2 s2 =>
             let s3 := s2.setCell l2 { s2.cell l2 with ret := false }
             match s3.addObject x l2 with
@@ -300,7 +315,7 @@ def run (ρ : List FunDef) : Nat → Job → St → R
             | none => (.thrown (.evalErr .redefined), s3)))) s
     | .eq op lhs rhs =>
       -- Function_Push_Pop; rhs first, then lhs
-      let isRef := match lhs with | .refDecl _ => true | _ => false
+      let isRef := isRefDecl lhs
       withFnCall (fun s0 =>
         bnd (run ρ f (.node rhs) s0) (fun r s1 =>
           bnd (run ρ f (.node lhs) s1) (fun l s2 =>
@@ -443,10 +458,7 @@ def run (ρ : List FunDef) : Nat → Job → St → R
        | (none, s1) => (.thrown (.evalErr .cantFind), s1))
     | .def_ name fid =>
       let existing := (s.funs.lookup name).getD []
-      let clash := match ρ[fid]? with
-        | some fd => existing.any (fun g => match ρ[g]? with | some gd => sameSig gd fd | none => false)
-        | none => true
-      if clash then (.thrown (.evalErr .redefined), s)
+      if defClash ρ existing fid then (.thrown (.evalErr .redefined), s)
       else allocVal { s with funs := (name, insertOverload ρ existing fid) :: s.funs.filter (·.1 != name) } .void true
     | .call unused fe args =>
       withFnCall (fun s0 =>
@@ -504,6 +516,7 @@ def run (ρ : List FunDef) : Nat → Job → St → R
                   (match fin with
                    | none => (.val l, s3)
                    | some fb => run ρ f (.node fb) s3)
+              | (.oof, s3) => (.oof, s3)
               | (o, s3) => runFin s3 (fun s4 => (o, s4))                         -- the clause was left abnormally
             else runFin s1 (fun s2 => (.thrown e, s2))
         | (.oof, s1) => (.oof, s1)
@@ -540,5 +553,8 @@ def run (ρ : List FunDef) : Nat → Job → St → R
                  | some l => (.val l, s3)
                  | none => (.thrown (.cpp .outOfRange), s3))
             | _, _ => (.thrown (.evalErr .dispatch), s3)))) s
+
+/-- (stated here so that the equation lemmas of `run` are generated once, in this module, and shared by every file that unfolds it) -/
+theorem run_zero (ρ : List FunDef) (j : Job) (s : St) : run ρ 0 j s = (.oof, s) := by simp only [run]
 
 end ChaiVerif.Chai
